@@ -64,6 +64,9 @@ structure WInvX (x : Option Nat) (w : World) : Prop where
       ∃ c d, w.connReqs.get? cr = some c ∧ c.dfd = some d ∧ d ∉ w.fired ∧ c.alarm = t
   /-- C13/C18: a pending retry timer belongs to a protocol whose loss has not been reported -/
   retryLive : ∀ t p rid, Pending w t (.retry p rid) → ∃ pr, w.protos.get? p = some pr ∧ pr.lost = false
+  /-- the Deferred of the handshake a protocol object still refers to has not fired -/
+  connReqLive : ∀ p pr cr c d, w.protos.get? p = some pr → pr.connReq = some cr → w.connReqs.get? cr = some c →
+      c.dfd = some d → d ∉ w.fired
   /-- SUBSCRIBE/UNSUBSCRIBE requests exist only with a running retry timer (they never survive a connection) -/
   subArmed : ∀ e ∈ w.ents, (e.box = .sub ∨ e.box = .unsub) → (w.req e.rid).alarm = none →
       ∃ p pr, x = some p ∧ w.protos.get? p = some pr ∧ pr.addr = e.addr
